@@ -44,6 +44,7 @@ func init() {
 			RunCopyNoop(p, r, pkgScope(flowAreas[id]...))
 			RunFlowMust(p, r, id, pkgScope(flowAreas[id]...))
 			RunFlowLoop(p, r, id, pkgScope(flowAreas[id]...))
+			RunMulAccOwn(p, r, pkgScope(flowAreas[id]...))
 			if id == "C05" || id == "C14" {
 				r.Engines = append(r.Engines, "ordguard(ORDER-GUARD)")
 				r.Explanation += " ORDER-GUARD (intrinsic): the guards that compare the requested number of digits with the field size are decided by the order of the two numbers alone; the function is interpreted abstractly (conditional constant propagation over SSA, flow-sensitive store for the local configuration struct) for a representative of every ordering, and on the executable sub-graph of each: bits.toBinary compares the bits with p-1 (MustBeLessOrEqCst is on every path to a return) whenever the requested digits cover the field; bitslice.Partition takes the canonical binary decomposition whenever no bound or a bound of at least the field size is given, and otherwise asserts the recomposition."
